@@ -310,6 +310,10 @@ func TestReplay(t *testing.T) {
 		t.Fatal(err)
 	}
 	src := string(buf)
+	if strings.HasPrefix(src, "; INFLIGHT ") {
+		replayInFlight(t, src)
+		return
+	}
 	m, want := parse(t, src)
 	if m == nil {
 		t.Fatalf("replay module does not parse")
